@@ -224,3 +224,89 @@ Proof.
   pose proof (fb_rest_bounds (skipn (N.to_nat i) w) i) as [A B].
   rewrite skipn_length in B. lia.
 Qed.
+
+(* ---------- the whole token stream: graph executor = DFA-level specification ---------- *)
+(* two attempt results that the lexing loop cannot tell apart *)
+Definition att_equiv (s1 s2 : stop) : Prop :=
+  match s1, s2 with
+  | Acted (Some x) _, Acted (Some y) _ => x = y
+  | Acted None o1, Acted None o2 => o1 = o2
+  | RetNone _, RetNone _ => True
+  | Stuck, Stuck => True
+  | Diverged, Diverged => True
+  | _, _ => False
+  end.
+
+Lemma next_from_equiv (A B : bool -> N -> list byte -> stop) act fb (w : list byte) p :
+  (forall start, att_equiv (A p start (skipn (N.to_nat start) w)) (B p start (skipn (N.to_nat start) w))) ->
+  forall fuel start, next_from A act fb w p fuel start = next_from B act fb w p fuel start.
+Proof.
+  intros H. induction fuel as [|fuel IH]; intros start; [reflexivity|].
+  cbn [next_from]. specialize (H start).
+  destruct (A p start (skipn (N.to_nat start) w)) as [[[l e]|] o1|r1| |];
+  destruct (B p start (skipn (N.to_nat start) w)) as [[[l2 e2]|] o2|r2| |]; cbn [att_equiv] in H; try contradiction; try reflexivity.
+  - injection H as <- <-. destruct (act l start e) as [[] bump]; try reflexivity. rewrite IH. reflexivity.
+  - subst o2. reflexivity.
+Qed.
+
+Lemma lex_from_equiv (A B : bool -> N -> list byte -> stop) act fb (w : list byte) p :
+  (forall start, att_equiv (A p start (skipn (N.to_nat start) w)) (B p start (skipn (N.to_nat start) w))) ->
+  forall fuel start, lex_from A act fb w p fuel start = lex_from B act fb w p fuel start.
+Proof.
+  intros H. induction fuel as [|fuel IH]; intros start; [reflexivity|].
+  cbn [lex_from]. rewrite (next_from_equiv A B act fb w p H).
+  destruct (next_from B act fb w p (S (length w)) start) as [sk [it e|s e|]]; try reflexivity.
+  rewrite IH. reflexivity.
+Qed.
+
+Section Stream.
+  Variables (d : dfa) (g : graph) (V : pairing) (R : rankmap) (D : pset).
+  Hypothesis Hok : dfa_ok d = true.
+  Hypothesis Hsim : sim_ok d g V D = true.
+  Hypothesis Hex : exact_ok d g V R D = true.
+
+  Lemma attempt_ref_spec_equiv (w : list byte) start : bytes_ok w ->
+    att_equiv (attempt_ref g false start (skipn (N.to_nat start) w))
+              (attempt_spec d (lv_of R) false start (skipn (N.to_nat start) w)).
+  Proof.
+    intros Hw. set (rest := skipn (N.to_nat start) w).
+    pose proof (bytes_ok_skipn (N.to_nat start) w Hw) as Hwr. fold rest in Hwr.
+    destruct rest as [|b rest'] eqn:Er.
+    - (* nothing left: both return None *)
+      unfold attempt_ref, hops_of, attempt_spec. cbn [walk at_eoi].
+      pose proof (sim_root d g V D Hsim) as Hroot.
+      pose proof (sim_pair d g V D Hsim _ _ Hroot) as Hp. unfold pair_ok in Hp.
+      destruct (gfind g (g_root g)) as [st|] eqn:Est; [|discriminate].
+      rewrite andb_false_r, Pos.eqb_refl, N.eqb_refl. exact I.
+    - assert (Hne : b :: rest' <> []) by discriminate.
+      destruct (attempt_ctx_correct d g V D start (b :: rest') Hok Hsim Hwr Hne) as [off Hoff].
+      rewrite Hoff. unfold attempt_spec.
+      destruct (scan d (d_start d) (b :: rest') start None) as [[l e]|] eqn:Es; cbn [att_equiv]; [reflexivity|].
+      (* no match: the stop offset is viable_end *)
+      pose proof (sim_root d g V D Hsim) as Hroot.
+      pose proof (sim_pair d g V D Hsim _ _ Hroot) as Hp. unfold pair_ok in Hp.
+      destruct (gfind g (g_root g)) as [st|] eqn:Est; [|discriminate].
+      unfold attempt_ref, hops_of in Hoff.
+      pose proof (walk_stops d g V R D Hok Hsim Hex start _ (b :: rest') _ _ start None st None off Hwr Hroot Est Hoff) as HS.
+      apply (stops_no_match d R _ _ _ _ HS).
+      (* scan = None means no length has a match *)
+      intros j Hj. destruct (dfa_ok_facts d Hok) as [_ [_ [_ Hnt]]].
+      destruct (last_winner d (d_start d) (b :: rest')) as [Hnone|[j0 [l0 [Hj0 [Hw0 Hl0]]]]].
+      + specialize (Hnone j). pose proof (dfa_ok_nodup d Hok (mstate d (d_start d) (b :: rest') j)) as Hnd.
+        pose proof (win_of_spec (prio d) _ Hnd) as S. unfold win_at, win in Hnone.
+        destruct (win_of (prio d) (dmatch d (mstate d (d_start d) (b :: rest') j)) WNone 0) as [|l|] eqn:E.
+        * exact S.
+        * exfalso. exact (Hnone l Hj eq_refl).
+        * exfalso. apply (Hnt (mstate d (d_start d) (b :: rest') j)). unfold win. exact E.
+      + rewrite (scan_last d (b :: rest') (d_start d) start None j0 l0 Hj0 Hw0 Hl0) in Es. discriminate.
+  Qed.
+
+  (* For every input, callback oracle and boundary function: the reference semantics of the
+     generated code yields exactly the item stream (tokens, errors with their spans, skipped regions,
+     final span) of the DFA-level maximal-munch specification. *)
+  Theorem lex_ref_eq_spec act fb (w : list byte) : bytes_ok w ->
+    lex_all (attempt_ref g) act fb w false = lex_all (attempt_spec d (lv_of R)) act fb w false.
+  Proof.
+    intros Hw. unfold lex_all. apply lex_from_equiv. intros start. apply attempt_ref_spec_equiv. exact Hw.
+  Qed.
+End Stream.
